@@ -156,6 +156,12 @@ Proof.
   - split; [discriminate|intros (_ & _ & C); discriminate].
 Qed.
 
+Lemma read_sv_validation d v :
+  read_sv F T nz parseJ d = Ok v <->
+  (read_sv_core F T nz parseJ d = Ok v /\ 0 <= svd_length d /\
+   Forall (fun k => 0 <= k < svd_length d) (svd_index d) /\ NoDup (svd_index d)).
+Proof. rewrite read_sv_ok. rewrite idx_ok_nil. tauto. Qed.
+
 (* reader safety at full strength: whatever document the reader accepts, the vector is well-formed *)
 Lemma read_sv_safe d v : read_sv F T nz parseJ d = Ok v -> wf_sv v /\ sv_n v = svd_length d.
 Proof.
